@@ -619,6 +619,44 @@ UNSTABLE_SORT_OK = {
 }
 
 
+def _selective_use(fn: ast.AST, call: ast.Call) -> Optional[str]:
+    """How the permutation answered by an unstable argsort is used *selectively* ('the first in this order wins'), or None."""
+    parents: Dict[int, ast.AST] = {}
+    for x in ast.walk(fn):
+        for c in ast.iter_child_nodes(x):
+            parents[id(c)] = x
+    par = parents.get(id(call))
+    names: Set[str] = set()
+    if isinstance(par, ast.Subscript) and par.value is call:
+        return f"`{ast.unparse(par)[:40]}` (one position of it)"
+    if isinstance(par, ast.Assign) and len(par.targets) == 1 and isinstance(par.targets[0], ast.Name):
+        names.add(par.targets[0].id)
+    loops: List[ast.AST] = []
+    if isinstance(par, (ast.For, ast.comprehension)) and par.iter is call:
+        loops.append(par)
+    for x in ast.walk(fn):
+        if isinstance(x, ast.Subscript) and isinstance(x.value, ast.Name) and x.value.id in names:
+            sl = x.slice
+            if isinstance(sl, ast.Slice) or (isinstance(sl, ast.Constant)) or (isinstance(sl, ast.UnaryOp) and isinstance(sl.operand, ast.Constant)):
+                return f"`{ast.unparse(x)[:40]}` (one end of it)"
+            cur = parents.get(id(x))
+            while cur is not None and not isinstance(cur, (ast.For, ast.While)):
+                cur = parents.get(id(cur))
+            if cur is not None and cur not in loops:
+                loops.append(cur)
+        if isinstance(x, (ast.For, ast.comprehension)) and isinstance(x.iter, ast.Name) and x.iter.id in names:
+            loops.append(x)
+    for l in loops:
+        if isinstance(l, ast.comprehension):
+            if isinstance(l.iter, ast.Name) and l.iter.id in names or l.iter is call:
+                return "a sequence arranged in that order (comprehension over the permutation): equal keys keep whatever order the sort left them in"
+            continue
+        for y in ast.walk(l):
+            if isinstance(y, ast.Break):
+                return f"the first element that passes a test (loop at line {l.lineno} leaves with `break`)"
+    return None
+
+
 def rule_mode_sort(ctx: Ctx, prog: Program) -> None:
     """np.argsort / np.sort default to an unstable quicksort whose order of *equal* keys is an implementation detail: Numba's compiled
     version and NumPy's (interpreted mode; also NumPy builds for other CPUs) disagree on it.  Where that order is visible -- which value a
@@ -641,12 +679,18 @@ def rule_mode_sort(ctx: Ctx, prog: Program) -> None:
             kind = next((kw.value for kw in node.keywords if kw.arg == "kind"), None)
             stable = isinstance(kind, ast.Constant) and kind.value in ("stable", "mergesort")
             key = (f.module.split(".")[-1], f.name)
-            if stable or key in UNSTABLE_SORT_OK:
+            values_only = fn_txt in ("np.sort", "numpy.sort")  # equal keys are equal values: their order cannot be seen in the sorted values
+            selective = None if (stable or values_only) else _selective_use(f.node, node)
+            if stable or values_only or key in UNSTABLE_SORT_OK:
                 n_ok += 1
-                ctx.ok("R-MODE-SORT", f"{f.qualname}: `{ast.unparse(node)[:50]}` " + ("is stable" if stable else "-- ties cannot matter: " + UNSTABLE_SORT_OK[key]), nontrivial=False)
+                ctx.ok("R-MODE-SORT", f"{f.qualname}: `{ast.unparse(node)[:50]}` " + ("is stable" if stable else "sorts values" if values_only else "-- ties cannot matter: " + UNSTABLE_SORT_OK[key]), nontrivial=False)
+            elif selective is None:
+                # the whole permutation is traversed (or handed to a helper): whether the order of equal keys can be seen in the result is a
+                # statement about what the traversal computes -- listed, not judged
+                ctx.undecided_site("R-MODE-SORT", f"{f.qualname}:{ast.unparse(node)[:40]}", "unstable argsort whose permutation is traversed entirely: order of ties not shown to matter or not")
             else:
                 ctx.violation("R-MODE-SORT", f.path, f.qualname, f"unstable-sort:{ast.unparse(node.args[0])[:30] if node.args else ''}", f"{f.path}:{node.lineno}",
-                              f"{f.qualname} orders by `{ast.unparse(node)[:60]}` without asking for a stable sort: the order of equal keys differs between "
+                              f"{f.qualname} orders by `{ast.unparse(node)[:60]}` without asking for a stable sort and then takes {selective}: the order of equal keys differs between "
                               "compiled mode (Numba's quicksort) and interpreted mode (NumPy's), and depends on how the input happened to be arranged -- "
                               "with ties, the value chosen / the order of scheduling, hence the sequence of solutions or the statistics, is not reproducible")
     ctx.floor("R-MODE-SORT:array-sorts", n, 4)
